@@ -56,6 +56,24 @@ func VerifC07_minus_ii() {
 	verifReach("C07/minus/end")
 }
 
+// Reference floor division and modulus in terms of Go's truncated / and % (trusted language
+// semantics), structured by the sign of the remainder rather than by the operand signs.
+func c07FloorDiv(a, b int64) int64 {
+	q, r := a/b, a%b
+	if r != 0 && ((r < 0) != (b < 0)) {
+		q--
+	}
+	return q
+}
+
+func c07FloorMod(a, b int64) int64 {
+	r := a % b
+	if r != 0 && ((r < 0) != (b < 0)) {
+		r += b
+	}
+	return r
+}
+
 // '/' : exact integer quotient when one exists (and fits), float otherwise; never a crash.
 func VerifC07_divide_ii() {
 	a, b := verifInt64("a"), verifInt64("b")
@@ -66,10 +84,13 @@ func VerifC07_divide_ii() {
 		if !overflow && a%b == 0 {
 			verifAssert(out.IsInt(), "C07/divide/int-when-exact")
 			if out.IsInt() {
-				verifAssert(out.AcquireIntValue()*b == a, "C07/divide/exact-quotient")
+				verifAssert(out.AcquireIntValue() == a/b, "C07/divide/exact-quotient")
 			}
 		} else {
 			verifAssert(out.IsFloat(), "C07/divide/float-when-inexact-or-overflow")
+			if out.IsFloat() {
+				verifAssert(out.AcquireFloatValue() == float64(a)/float64(b), "C07/divide/float-value")
+			}
 		}
 	} else {
 		verifAssert(out.IsFloat(), "C07/divide/float-on-zero-divisor")
@@ -89,14 +110,7 @@ func VerifC07_int_divide_ii() {
 		} else {
 			verifAssert(out.IsInt(), "C07/intdiv/int")
 			if out.IsInt() {
-				q := out.AcquireIntValue()
-				r := a - q*b // exact: |r| < |b|
-				// floor: remainder has the divisor's sign (or is zero) and is smaller in magnitude
-				if b > 0 {
-					verifAssert(r >= 0 && r < b, "C07/intdiv/floor-pos-divisor")
-				} else {
-					verifAssert(r <= 0 && r > b, "C07/intdiv/floor-neg-divisor")
-				}
+				verifAssert(out.AcquireIntValue() == c07FloorDiv(a, b), "C07/intdiv/floor")
 			}
 		}
 	}
@@ -117,11 +131,7 @@ func VerifC07_modulus_ii() {
 			} else {
 				verifAssert(r <= 0 && r > b, "C07/mod/range-neg-divisor")
 			}
-			// congruent to a modulo b (wrap-around arithmetic is exact modulo 2^64, and
-			// (a - r) is a multiple of b iff its Go remainder is zero, when a-r does not overflow)
-			if c07SubFits(a, r) {
-				verifAssert((a-r)%b == 0, "C07/mod/congruent")
-			}
+			verifAssert(r == c07FloorMod(a, b), "C07/mod/value")
 		}
 	}
 	verifReach("C07/mod/end")
